@@ -261,14 +261,14 @@ def integ_cases(rng, rules, n):
     return out
 
 # ----------------------------------------------------------------------------------------------- main
-def gen_model_specs(rng, h, mid, m, quick):
+def gen_model_specs(rng, h, mid, m, quick, rules=None, consts=None):
     """writes the model, asks the library where candidate points lie, and returns (specs, struct jobs, info)"""
     models.write_model(m, os.path.join(h.wd, "m%d" % mid))
     cand = candidate_points(rng, m, 60 if quick else 150)
     desc, cont = h.run([core.fcase("c08", [1, mid], []), core.fcase("c08", [7, mid, len(cand)], flat(cand))])
     if desc[0] is None or desc[0][0] != 0 or cont[0] is None or cont[0][0] != 0:
         return None
-    geo_ints = desc[0][1:]; conds = desc[1]; ndom = geo_ints[1]
+    geo_ints = desc[0][1:]; ndom = geo_ints[1]; conds = desc[1][:ndom]; coords = desc[1][ndom:]; nser = len(coords) // 9
     z = cont[0][1:]; p = 0; where = []
     for _ in cand:
         k = z[p]; where.append(z[p + 1:p + 1 + k]); p += 1 + k
@@ -328,9 +328,23 @@ def gen_model_specs(rng, h, mid, m, quick):
     structs.append((struct_case(2, geo_ints, -1, spts, sd), ip_line(mid, -1, [pt for pt, w in pk], sdips), "DipSource2InternalPotMat"))
     if rng.random() < 0.4:
         structs.append((struct_case(1, geo_ints, -1, None, []), dsm_line(mid, CFGS[0], -1, []), "DipSourceMat with no dipole"))
+    # value jobs: the complete float model (loop + integrator + C16's kernel transcription) against the real matrices
+    values = []
+    if rules is not None and consts is not None:
+        bcont = [w for pt, w in batch]
+        def vline(op, cfg, named, ipts, icont):
+            npts, rule = rules[cfg[0]]
+            zi = [op, npts, cfg[1], nser, ndom, len(ipts), len(dips)] + list(geo_ints) + [named]
+            for c in list(icont) + bcont: zi += [len(c)] + list(c)
+            return core.fcase("c08d", zi, [consts["K"], cfg[2]] + rule + conds + coords + flat(ipts) + flat(dips))
+        for cfg in CFGS:
+            values.append((vline(1, cfg, -1, [], []), dsm_line(mid, cfg, -1, dips), "DipSourceMat integrator(%d,%d,%g)" % tuple(cfg[:3])))
+        nd = rng.randrange(ndom)
+        values.append((vline(1, CFGS[1], nd, [], []), dsm_line(mid, CFGS[1], nd, dips), "DipSourceMat named=%d" % nd))
+        values.append((vline(2, CFGS[0], -1, [pt for pt, w in pk], [w for pt, w in pk]), ip_line(mid, -1, [pt for pt, w in pk], dips), "DipSource2InternalPotMat"))
     info = dict(kind=m["info"].get("topology"), domains=ndom, size=geo_ints[0], dipoles=len(dips), zero_cond_dipoles=len(zero_cols),
                 dipoles_per_domain={str(d): len(v) for d, v in by_dom.items()})
-    return specs, structs, info
+    return specs, structs, info, values
 
 def meg_specs(rng, quick):
     specs = []
@@ -407,6 +421,7 @@ def main(replay=None):
     p = 0
     for order, npts in zip((1, 2, 3), r6[0][1:4]):
         rules[order] = (npts, r6[1][p:p + 4 * npts]); p += 4 * npts
+    consts = dict(K=r6[1][p], MagFactor=r6[1][p + 1]) if len(r6[1]) >= p + 2 else None
     ic = integ_cases(ck.rng, rules, 300 if quick else 10000)
     corpus = []
     cp = os.path.join(core.VERIF, "corpus", "C08.txt")
@@ -423,6 +438,7 @@ def main(replay=None):
     nmodels = 6 if quick else 40
     kinds = ["nested", "nonconductive", "split", "inclusions", "nested", "nonconductive"]
     allspecs = []; infos = []; nstruct = 0; struct_mis = 0; nspec_fail = 0; worst_add = {}
+    vstats = dict(cases=0, entries=0, bitwise_entries=0, agree_cases=0, worst_rel=0.0, mismatches=[])
     for mid in range(nmodels):
         kind = kinds[mid] if mid < len(kinds) else ck.rng.choice(kinds)
         m = models.random_model(ck.rng, 2 if (not quick and mid % 7 == 6) else 1, kinds=(kind,))     # thorough: some 162-vertex meshes
@@ -433,11 +449,12 @@ def main(replay=None):
         c = tuple(sum(v[k] for v in allv) / len(allv) for k in range(3))
         m["info"]["centre"] = c; m["info"]["outer_radius"] = max(math.sqrt(sum((v[k] - c[k]) ** 2 for k in range(3))) for v in allv)
         model_store[mid] = m
-        g = gen_model_specs(ck.rng, h, mid, m, quick)
+        g = gen_model_specs(ck.rng, h, mid, m, quick, rules, consts)
         if g is None:
             ck.violation("harness: geometry", "generated model %d (%s) could not be loaded by the library" % (mid, kind), dict(kind="harness", model=m), found_input=False)
             continue
-        specs, structs, info = g; infos.append(info)
+        specs, structs, info, values = g; infos.append(info)
+        judge_values(h, values, vstats)
         nspec_fail += run_specs(ck, h, specs, mdl_of); allspecs += specs
         for s in specs:
             if s["rel"] == "add" and "_worst" in s:
@@ -445,6 +462,13 @@ def main(replay=None):
                 worst_add[key] = max(worst_add.get(key, 0.0), s["_worst"])
         a, b = judge_struct(ck, h, structs, m, mid); nstruct += a; struct_mis += b
     ms = meg_specs(ck.rng, quick); nspec_fail += run_specs(ck, h, ms, mdl_of); allspecs += ms
+    if consts is not None:
+        judge_values(h, [(core.fcase("c08m", [len(s["sens"]), len(s["dips"])], [consts["MagFactor"]] + flat(s["sens"]) + flat(s["dips"])), meg_line(s["sens"], s["dips"]), "DipSource2MEGMat")
+                         for s in ms if s["rel"] == "locality"], vstats)
+    if vstats["mismatches"]:
+        # Not a violation of C08 by itself: the column theorems hold for *any* kernels; with the structure tie (S) and the
+        # integrator tie (I) intact, a value difference means the kernel values / coefficients changed (C16 / C01 territory).
+        ck.notes.append("value tie: %d of %d matrices differ from the complete float model (first: %s)" % (len(vstats["mismatches"]), vstats["cases"], vstats["mismatches"][0]))
 
     rel_dist = {}
     for s in allspecs:
@@ -456,7 +480,8 @@ def main(replay=None):
                        "scale factors incl. powers of two, 0, negative; re-indexing with repeats and omissions; split at a random cut incl. 0 and n",
                   samples=[json.dumps({k: v for k, v in allspecs[0].items() if k not in ("dips",)})[:300], ic[len(ic) // 2][1][:200]],
                   op_distribution=rel_dist, models=infos, integrator=istats, structure_cases=nstruct, structure_mismatches=struct_mis,
-                  relation_failures=nspec_fail, traces_validated_against_impl=nstruct + len(ic),
+                  relation_failures=nspec_fail, traces_validated_against_impl=nstruct + len(ic) + vstats["agree_cases"],
+                  value_tie=dict(vstats, mismatches=vstats["mismatches"][:5], note="complete float model (Sources.DSM/DS2IP/DS2MEG + AdaptInt.integrate + Geom/Kernels.v) vs the real matrices, rounding class 1e-10*max|column|; informative: a mismatch alone is reported as a note, not as a violation (the theorems are parametric in the kernels)"),
                   additivity_worst_relative_discrepancy=worst_add,
                   additivity_note="adaptive: measured |A(q1+q2)-A(q1)-A(q2)|/max|column| against %g*tolerance -- empirical, not a theorem (adaptive_additive_refuted)" % ADD_ADAPTIVE_FACTOR)
     ck.cov["trusted_base"] += ["hand-written Gallina models coq/Geom/{AdaptInt,Sources}.v; integrator tied by float runs of the extracted model against Integrator::integrate (tables read from the compiled library), loop/buffer model tied at the level of zero/equality patterns with provenance sets",
@@ -521,6 +546,33 @@ def judge_integ(ck, ic, mo, ho, h=None):
                      % (len(mism), len(ic), bad, what.get("kind"), what.get("order"), what.get("depth"), hl[:160]),
                      dict(kind="integrator", model_case=ml, harness_case=hl, what=what, replay_cmd="./check C08 --replay <this file>"), found_input=False)
     return st
+
+def judge_values(h, values, st):
+    if not values: return
+    mo = core.run_model([v[0] for v in values]); ho = h.run([v[1] for v in values])
+    for (ml, hl, what), mline, hres in zip(values, mo, ho):
+        st["cases"] += 1
+        try: mz, mf = core.fparse(mline)
+        except ValueError: mz, mf = None, None
+        M = cols(hres)
+        if mz is None or M is None or mz[0] != 0:
+            if (mz is not None and mz[0] != 0) and M is None: st["agree_cases"] += 1      # both throw
+            else: st["mismatches"].append("%s: model %s, implementation %s" % (what, "throws" if (mz is None or mz[0] != 0) else "returns", "throws" if M is None else "returns"))
+            continue
+        nc, nr = mz[1], mz[2]
+        if nc != len(M) or (nc and nr != len(M[0])):
+            st["mismatches"].append("%s: shape model %dx%d implementation %dx%d" % (what, nr, nc, len(M[0]) if M else 0, len(M))); continue
+        ok = True
+        for k in range(nc):
+            a = mf[k * nr:(k + 1) * nr]; b = M[k]; sc = max(colmax(a), colmax(b))
+            for x, y in zip(a, b):
+                st["entries"] += 1
+                if x.hex() == y.hex() or x == y: st["bitwise_entries"] += 1
+                elif sc > 0:
+                    r = abs(x - y) / sc; st["worst_rel"] = max(st["worst_rel"], r)
+                    if not r <= 1e-10: ok = False
+        if ok: st["agree_cases"] += 1
+        else: st["mismatches"].append("%s: entries differ beyond the rounding class (worst so far %.3g of max|column|)" % (what, st["worst_rel"]))
 
 def judge_struct(ck, h, structs, m, mid):
     mo = core.run_model([s[0] for s in structs]); ho = h.run([s[1] for s in structs]); mis = 0
